@@ -134,7 +134,9 @@ var notSpaces = []string{"\u200b", "\u180e", "\ufeff", "\x00", "\x1c", "\x1f", "
 
 // passphrases: ASCII, and strings whose NFKD form differs (composed letters, full-width forms, ligature, Hangul)
 var passes = []string{"", "TREZOR", "123456", "correct horse battery staple", "p\u00e4ssw\u00f6rd", "\u00e9", "e\u0301",
-	"\uff46\uff55\uff4c\uff4c", "\ufb01sh", "\u00c5", "\ud55c\uae00", "\u1e9b\u0323", " pass ", "\x00", "\xff\xfe"}
+	"\uff46\uff55\uff4c\uff4c", "\ufb01sh", "\u00c5", "\ud55c\uae00", "\u1e9b\u0323", " pass ", "\x00", "\xff\xfe",
+	"0123456789012345678901234567890123456789", "0123456789012345678901234567890123456789X", "0123456789012345678901234567890123456789Y",
+	strings.Repeat("long passphrase ", 9), strings.Repeat("k", 128), strings.Repeat("k", 129)}
 
 func foreign(r *rng.R) string {
 	ls := [][]string{wordlists.Spanish, wordlists.French, wordlists.Italian, wordlists.Japanese, wordlists.Korean,
@@ -147,7 +149,19 @@ func randPass(r *rng.R) string {
 	if r.Chance(50) {
 		return passes[r.Intn(len(passes))]
 	}
+	// lengths: mostly what the API admits (6..40), but NewSeed takes any string: the boundaries of the API's
+	// limit (39..42), HMAC's block size (127..130: longer keys are hashed first) and long passphrases
 	n := 6 + r.Intn(35)
+	switch r.Intn(8) {
+	case 0:
+		n = 39 + r.Intn(4)
+	case 1:
+		n = 127 + r.Intn(4)
+	case 2:
+		n = 41 + r.Intn(260)
+	case 3:
+		n = r.Intn(6)
+	}
 	b := make([]byte, n)
 	for i := range b {
 		b[i] = byte(33 + r.Intn(94))
